@@ -594,8 +594,15 @@ func session(c *vm.Ctx, r *vm.Rand, si int, sess *sessionServer) {
 	}
 	opts := bot.JoinOptions{}
 	if qkind == "channel" {
-		opts.QueueRead = queue.NewChannelQueue[pk.Packet](4096)
-		opts.QueueWrite = queue.NewChannelQueue[pk.Packet](4096)
+		// a bounded queue refuses when it is full and the bot then stops with "receive queue is full": that is the
+		// queue's contract, not a lost packet. The queue must therefore hold what the peer may send before the bot's
+		// handlers catch up - for the session with a bundle of thousands of packets that is the whole session
+		qcap := 4096
+		if bigBundle {
+			qcap = 1 << 15
+		}
+		opts.QueueRead = queue.NewChannelQueue[pk.Packet](qcap)
+		opts.QueueWrite = queue.NewChannelQueue[pk.Packet](qcap)
 	}
 	addr := map[string]string{"host:port": "verif.test:25565", "host": "verif.test", "host:0xport": "verif.test:0x63dd", "[v6]:port": "[::1]:25565"}[addrForm]
 	var ln *mcnet.Listener
